@@ -86,7 +86,7 @@ func refDecode(s string) ([]byte, bool) {
 	return append(make([]byte, z), n.Bytes()...), true
 }
 
-var foreign = []string{"0", "O", "I", "l", " ", "\n", "+", "/", "=", "-", "_", "\x00", "\x7f", "\x80", "\xff", "\xc3\xa9", "\xe2\x82\xac", "\xf0\x9f\x98\x80", "\xd9\xa1"}
+var foreign = []string{"\u0141", "\u0261", "\u754c", "\u0131", "0", "O", "I", "l", " ", "\n", "+", "/", "=", "-", "_", "\x00", "\x7f", "\x80", "\xff", "\xc3\xa9", "\xe2\x82\xac", "\xf0\x9f\x98\x80", "\xd9\xa1"}
 
 func mutateText(s string) string {
 	b := []byte(s)
@@ -176,6 +176,17 @@ func addressText() string {
 		return mutateText(base58.Encode(addressBytes(key, 0, true)))
 	case 5:
 		return base58.Encode(randBytes(25))
+	case 6: // a valid address followed by more bytes, or missing its last byte
+		b := addressBytes(key, 0, true)
+		if rng.Intn(3) == 0 {
+			return base58.Encode(b[:24])
+		}
+		return base58.Encode(append(b, randBytes(1+rng.Intn(4))...))
+	case 7: // a code point beyond U+00FF whose low byte is an alphabet character, inside a valid address text
+		t := []rune(base58.Encode(addressBytes(key, 0, true)))
+		i := rng.Intn(len(t))
+		t[i] = rune(0x100*(1+rng.Intn(200))) + t[i]
+		return string(t)
 	}
 	return base58.Encode(addressBytes(key, 0, true))
 }
